@@ -3,13 +3,15 @@
 # quick check of the property, undo the change straight away. Prints one line per change. (developer aid; never registered)
 for ID in "$@"; do
   D=/verif/seeded/$ID
-  P=$(python3 -c "import json;print(json.load(open('$D/meta.json'))['property'])" 2>/dev/null || echo ${ID:0:3})
+  P=$(python3 -c "import json;m=json.load(open('$D/meta.json'));print(' '.join(m.get('checks',[m['property']])))" 2>/dev/null || echo ${ID:0:3})
   cd /repo || exit 2
   if ! git apply --check $D/patch.diff 2>/dev/null; then echo "$ID: PATCH DOES NOT APPLY"; continue; fi
   git apply $D/patch.diff
   if go build ./... 2>/dev/null && go test -mod=mod -vet=off -count=1 ./... > /tmp/seeded_suite.log 2>&1; then suite=pass; else suite=FAIL; fi
-  s=$(date +%s)
-  (cd /verif && VERIF_SEED=${SEED:-} timeout 1500 sim/bin/verifsim check $P --tier quick > $D/check_$P.log 2>&1); rc=$?
+  for p in $P; do
+    s=$(date +%s)
+    (cd /verif && VERIF_SEED=${SEED:-} timeout 1500 sim/bin/verifsim check $p --tier quick > $D/check_$p.log 2>&1); rc=$?
+    echo "$ID: check=$p suite=$suite check_rc=$rc $(( $(date +%s)-s ))s sigs=$(grep -a -o '^  [A-Z_]*: [^ ]* \[[^]]*\]' $D/check_$p.log | sed 's/.*\[\(.*\)\]/\1/' | sort -u | head -4 | tr '\n' ' ')"
+  done
   git checkout -- . ; git status --short | grep -v '^??' | head -3
-  echo "$ID: property=$P suite=$suite check_rc=$rc $(( $(date +%s)-s ))s sigs=$(grep -o '^  [A-Z_]*: [^ ]* \[[^]]*\]' $D/check_$P.log | sed 's/.*\[\(.*\)\]/\1/' | sort -u | head -4 | tr '\n' ' ')"
 done
